@@ -509,6 +509,7 @@ func (c *Ctx) ruleLoopInventory(rule string) {
 	c.Min(rule, 40)
 	// the iterator contract (S4)
 	boundField := map[string]bool{}
+	doneIter := map[string]bool{}
 	for _, tn := range []string{"sliceIter", "mapIter", "dmIter"} {
 		key := c.Fn("internal/iter", tn, "Key")
 		next := c.Fn("internal/iter", tn, "Next")
@@ -516,6 +517,15 @@ func (c *Ctx) ruleLoopInventory(rule string) {
 			c.Lost(rule, "iter."+tn+".Key/Next")
 			continue
 		}
+		// a type that is an alias of another iterator shares its methods: they are checked under
+		// the name of the type that declares them
+		if rn := recvName(key); rn != "" && rn != tn {
+			if doneIter[rn] {
+				continue
+			}
+			tn = rn
+		}
+		doneIter[tn] = true
 		kx := c.Index(key)
 		adv := 0
 		okAdv := true
